@@ -79,7 +79,7 @@ class GenResult:
 
 def compile_protos(files: Dict[str, str], opts: Optional[List[str]] = None, tag: str = "g",
                    want_descriptor: bool = True, extra_src: Optional[str] = None,
-                   timeout: int = 3000) -> GenResult:
+                   timeout: int = 3000, request: Optional[List[str]] = None) -> GenResult:
     """Write ``files`` (relative path -> text), run protoc with the plugin, return result.
 
     The output directory is itself an importable package (``<tag>_<pid>_<n>``) so that
@@ -118,7 +118,9 @@ def compile_protos(files: Dict[str, str], opts: Optional[List[str]] = None, tag:
     dset = os.path.join(workdir, "descriptors.bin")
     if want_descriptor:
         cmd += [f"--descriptor_set_out={dset}", "--include_imports", "--include_source_info"]
-    cmd += names
+    # request: the files named on the protoc command line (default: all of them); the others are
+    # only reachable through imports
+    cmd += list(request) if request is not None else names
     env = dict(os.environ)
     env["PATH"] = os.path.join(VERIF, "tools", "bin") + os.pathsep + env.get("PATH", "")
     env["PYTHONPATH"] = os.path.join(REPO, "src") + os.pathsep + env.get("PYTHONPATH", "")
